@@ -1,6 +1,6 @@
 """Textbook FIRST / FOLLOW / PREDICT and the LL(1) verdict on a ref Grammar.  No pyformlang import."""
 EPS = ("\0eps",)
-END = "$"
+END = ("\0end",)      # the end-of-input marker: an object no terminal value can equal (a terminal may be called "$")
 
 
 def analyse(g):
@@ -73,7 +73,7 @@ def parse(g, word, predict):
             return None
         top = stack.pop()
         if top[0] == "T":
-            if w[i] == top[1] and w[i] is not END:
+            if w[i] is not END and w[i] == top[1]:
                 i += 1
             else:
                 return False
@@ -82,4 +82,4 @@ def parse(g, word, predict):
             if b is None:
                 return False
             stack.extend(reversed(b))
-    return w[i] is END or w[i] == END and i == len(w) - 1
+    return w[i] is END
